@@ -469,6 +469,116 @@ def interpEndNonzero (d : DataCard) : Bool :=
   | _ => true
 end DataCard
 
+/-! ## Tally, FS, SDEF and SI/SP/SB/DS cards (section 5.2: Tally, Source)
+
+    Tally  ::= ["*"] "F" TallyNo ":" PL TallyBins          TallyBins ::= { PosInt | "(" PosInt+ ")" }+ ["T"]
+             | "FS" PosInt {["-"] PosInt} ["T"]
+    Source ::= "SDEF" { SdefKey sep (Real{1|3} | "D" PosInt | Particle) }
+             | ("SI"|"SP"|"SB"|"DS") PosInt OptLetter GenericEntries
+
+  A single letter (`t`, `d`, an option letter, a particle) is a word of its own; every such letter of G is a
+  particle designator of table 2-2, so its class is PARTICLE (`d1` is the two tokens PARTICLE NUMBER). -/
+
+inductive TallyItem
+  /-- bins outside a group: one or more entries -/
+  | bins (es : Entries)
+  /-- `"(" gap PosInt+ ")" gap` -/
+  | group (opened : Gap) (es : Entries) (after : Gap)
+  deriving Repr
+
+namespace TallyItem
+def WF : TallyItem → Bool
+  | bins es => es.WF && !es.isEmpty
+  | group opened es after => opened.ok && es.WF && !es.isEmpty && after.ok
+def render : TallyItem → List String
+  | bins es => es.render
+  | group _ es _ => ["("] ++ es.render ++ [")"]
+def classes : TallyItem → List String
+  | bins es => es.classes
+  | group opened es after => ["("] ++ opened.cls ++ es.classes ++ [")"] ++ after.cls
+end TallyItem
+
+inductive SdefVal
+  | nums (es : Entries)
+  /-- `"D" PosInt`: the letter and the number are two tokens -/
+  | dist (letter : String) (number : String) (after : Gap)
+  | particle (word : String) (after : Gap)
+  deriving Repr
+
+def SdefVal.classes : SdefVal → List String
+  | .nums es => es.classes
+  | .dist _ _ after => ["PARTICLE", "NUMBER"] ++ after.cls
+  | .particle _ after => ["PARTICLE"] ++ after.cls
+def SdefVal.WF : SdefVal → Bool
+  | .nums es => es.WF && !es.isEmpty
+  | .dist _ _ after => after.ok
+  | .particle _ after => after.ok
+
+structure SdefParam where
+  key : String
+  sep : Sep
+  val : SdefVal
+  deriving Repr
+
+namespace SdefParam
+def WF (p : SdefParam) : Bool := p.sep.WF && p.val.WF
+def render (p : SdefParam) : List String :=
+  [p.key] ++ (match p.val with | .nums es => es.render | .dist l n _ => [l ++ n] | .particle w _ => [w])
+def classes (p : SdefParam) : List String :=
+  ["KEYWORD"] ++ p.sep.classes ++ p.val.classes
+end SdefParam
+
+inductive XBody
+  /-- F: bins and groups, optional total `T` -/
+  | tally (items : List TallyItem) (total : Option (String × Gap))
+  /-- FS: segments, optional `T` -/
+  | segments (es : Entries) (total : Option (String × Gap))
+  /-- SDEF: key/value pairs (possibly none) -/
+  | sdef (params : List SdefParam)
+  /-- SI / SP / SB / DS with an option letter -/
+  | lettered (letter : String) (g : Gap) (es : Entries)
+  deriving Repr
+
+structure XCard where
+  lead : Gap
+  classifier : Classifier
+  g0 : Gap
+  body : XBody
+  deriving Repr
+
+namespace XCard
+def totalWF : Option (String × Gap) → Bool
+  | some (_, g) => g.ok
+  | none => true
+def totalClasses : Option (String × Gap) → List String
+  | some (_, g) => ["PARTICLE"] ++ g.cls
+  | none => []
+def totalRender : Option (String × Gap) → List String
+  | some (t, _) => [t]
+  | none => []
+def WF (d : XCard) : Bool :=
+  d.lead.ok && d.g0.ok && d.classifier.WF &&
+  (match d.body with
+   | .tally items total => !items.isEmpty && !d.g0.isEmpty && items.all TallyItem.WF && totalWF total
+   | .segments es total => es.WF && !es.isEmpty && !d.g0.isEmpty && totalWF total
+   | .sdef ps => ps.all SdefParam.WF && (ps.isEmpty || !d.g0.isEmpty)
+   | .lettered _ g es => g.req && es.WF && !es.isEmpty && !d.g0.isEmpty)
+def render (d : XCard) : List String :=
+  d.classifier.render ++
+  (match d.body with
+   | .tally items total => items.flatMap TallyItem.render ++ totalRender total
+   | .segments es total => es.render ++ totalRender total
+   | .sdef ps => ps.flatMap SdefParam.render
+   | .lettered l _ es => [l] ++ es.render)
+def classes (d : XCard) : List String :=
+  d.lead.cls ++ d.classifier.classes ++ d.g0.cls ++
+  (match d.body with
+   | .tally items total => items.flatMap TallyItem.classes ++ totalClasses total
+   | .segments es total => es.classes ++ totalClasses total
+   | .sdef ps => ps.flatMap SdefParam.classes
+   | .lettered _ g es => ["PARTICLE"] ++ g.cls ++ es.classes)
+end XCard
+
 /-! ## Sanity examples (the readings the manual gives) -/
 
 example : (Geom.union (.inter (.surf "1") [.space] (.surf "-2")) [] [] (.compl (.paren [] (.surf "3") []))).render
